@@ -4,6 +4,7 @@ import ast
 import inspect
 import re
 import sys
+import threading
 import tokenize
 import types
 from ast import NodeTransformer, NodeVisitor
@@ -20,6 +21,10 @@ from .utils import ABSENT, DictPile
 
 _IDX = count()
 _GENERIC = Element(name=None)
+
+# Serializes the bookkeeping of which functions are instrumented for what
+# (probes may be activated and deactivated from several threads).
+_tooling_lock = threading.RLock()
 
 
 class Key:
@@ -1365,17 +1370,19 @@ class SyncedStackedTransforms(StackedTransforms):
         self.conformer.code = new.__code__
 
     def push(self, captures):
-        super().push(captures)
-        try:
-            self._apply(self.target)
-        except Exception:
-            # The function cannot be transformed: do not count this push
-            super().pop(captures)
-            raise
+        with _tooling_lock:
+            super().push(captures)
+            try:
+                self._apply(self.target)
+            except Exception:
+                # The function cannot be transformed: do not count this push
+                super().pop(captures)
+                raise
 
     def pop(self, captures):
-        super().pop(captures)
-        self._apply(self.target)
+        with _tooling_lock:
+            super().pop(captures)
+            self._apply(self.target)
 
     def _apply(self, fn):
         _, code, info, token = self.get()
@@ -1387,9 +1394,11 @@ class SyncedStackedTransforms(StackedTransforms):
         except ImportError:  # pragma: no cover
             pass
 
-        fn.__code__ = code
+        # The new code refers to the function through the token: bind it
+        # before the code is installed (another thread may call fn right now)
+        if token is not None:
+            fn.__globals__[token] = fn
         fn.__ptera_info__ = info
         fn.__ptera_token__ = token
         fn.__ptera_discard__ = False
-        if token is not None:
-            fn.__globals__[token] = fn
+        fn.__code__ = code
